@@ -1,6 +1,7 @@
 import DadiVerif.Model.Memo
 import DadiVerif.Driver.Memo
 import Mathlib.Data.List.Basic
+import Mathlib.Data.List.Nodup
 /-! memo transparency: if the key determines the value, every call history returns the pure function's values -/
 namespace DadiVerif
 section
@@ -286,3 +287,126 @@ theorem Flow.sound (fuel : Nat) (f : Flow) : ∀ (S : List Nat) (c : Nat → Boo
 
 end
 end DadiVerif
+
+/-! ### in-place writes into a strided array: `flat` / direct stores act on the logical content, whatever the layout -/
+namespace DadiVerif.Driver.Memo
+open Gen.Effects
+
+/-- a well-formed strided array: distinct logical elements live at distinct positions inside the block -/
+def Arr.Valid (a : Arr) : Prop := a.pos.Nodup ∧ ∀ p ∈ a.pos, p < a.buf.length
+
+theorem Arr.getD_set (buf : List Bool) (p q : Nat) (v : Bool) (hq : q < buf.length) :
+    (buf.set p v).getD q false = if p = q then v else buf.getD q false := by
+  simp only [List.getD_eq_getElem?_getD, List.getElem?_set]
+  by_cases h : p = q
+  · subst h; simp [hq]
+  · simp [h]
+
+/-- `x.flat[k] = v` on any layout: the logical content changes at `k` and nowhere else -/
+theorem Arr.logical_setLogical (a : Arr) (hv : a.Valid) (k : Nat) (hk : k < a.pos.length) (v : Bool) :
+    (a.setLogical k v).logical = a.logical.set k v := by
+  have hpk : a.pos.getD k 0 = a.pos[k] := by simp [List.getD_eq_getElem?_getD, hk]
+  unfold Arr.logical Arr.setLogical
+  rw [hpk]
+  apply List.ext_getElem
+  · simp
+  · intro j h1 h2
+    have hj : j < a.pos.length := by simpa using h1
+    simp only [List.getElem_map, List.getElem_set]
+    rw [Arr.getD_set _ _ _ _ (hv.2 _ (List.getElem_mem hj))]
+    have : (a.pos[k] = a.pos[j]) ↔ k = j := hv.1.getElem_inj_iff
+    by_cases hkj : k = j
+    · subst hkj; simp
+    · simp [hkj, this]
+
+theorem Arr.valid_setLogical (a : Arr) (hv : a.Valid) (k : Nat) (v : Bool) : (a.setLogical k v).Valid := by
+  refine ⟨hv.1, fun p hp => ?_⟩
+  simpa [Arr.setLogical] using hv.2 p hp
+
+theorem Arr.foldl_set_length (ps : List Nat) (buf : List Bool) (v : Bool) :
+    (ps.foldl (fun b p => b.set p v) buf).length = buf.length := by
+  induction ps generalizing buf with
+  | nil => rfl
+  | cons p ps ih => simp [List.foldl_cons, ih]
+
+theorem Arr.foldl_set_getD (ps : List Nat) (buf : List Bool) (v : Bool) (q : Nat) (hq : q < buf.length) :
+    (ps.foldl (fun b p => b.set p v) buf).getD q false = if q ∈ ps then v else buf.getD q false := by
+  induction ps generalizing buf with
+  | nil => simp
+  | cons p ps ih =>
+    rw [List.foldl_cons, ih _ (by simpa using hq), Arr.getD_set _ _ _ _ hq]
+    by_cases h1 : q ∈ ps
+    · simp [h1]
+    · by_cases h2 : p = q
+      · subst h2; simp
+      · have : q ≠ p := fun h => h2 h.symm
+        simp [h1, h2, this]
+
+/-- `x[...] = v` on any layout: every logical element becomes `v` -/
+theorem Arr.logical_setAll (a : Arr) (hv : a.Valid) (v : Bool) : (a.setAll v).logical = a.logical.map (fun _ => v) := by
+  unfold Arr.logical Arr.setAll
+  apply List.ext_getElem
+  · simp
+  · intro j h1 h2
+    have hj : j < a.pos.length := by simpa using h1
+    simp only [List.getElem_map]
+    rw [Arr.foldl_set_getD _ _ _ _ (hv.2 _ (List.getElem_mem hj))]
+    simp [List.getElem_mem hj]
+
+theorem Arr.valid_setAll (a : Arr) (hv : a.Valid) (v : Bool) : (a.setAll v).Valid := by
+  refine ⟨hv.1, fun p hp => ?_⟩
+  simpa [Arr.setAll, Arr.foldl_set_length] using hv.2 p hp
+
+/-- a row that writes through the array itself or its `flat` iterator -/
+def layoutFree (w : MaskWrite) : Bool :=
+  match w.index, w.handle with
+  | .all, .direct => true
+  | _, .flat => true
+  | _, _ => false
+
+/-- **one layout-free store**: on every valid layout it does to the logical content what it does to a plain list, and leaves the
+    layout valid -/
+theorem applyWrite_logical (w : MaskWrite) (hw : layoutFree w = true) (a : Arr) (hv : a.Valid) :
+    (applyWrite w a).map Arr.logical = writeLogical w a.logical ∧ ∀ a', applyWrite w a = some a' → a'.Valid := by
+  have hlen : a.logical.length = a.size := by simp [Arr.logical, Arr.size]
+  obtain ⟨fn, attr, handle, index, value⟩ := w
+  cases index with
+  | all =>
+    cases handle <;> simp [layoutFree] at hw <;>
+      simp [applyWrite, writeLogical, Arr.logical_setAll a hv] <;> exact Arr.valid_setAll a hv _
+  | idx i =>
+    cases handle <;> simp [layoutFree] at hw
+    simp only [applyWrite, writeLogical, hlen]
+    cases hp : pyIndex a.size i with
+    | none => simp
+    | some k =>
+      have hk : k < a.pos.length := by
+        unfold pyIndex at hp
+        unfold Arr.size at hp
+        split at hp
+        · split at hp <;> simp at hp; omega
+        · split at hp <;> simp at hp; omega
+      simp only [Option.map_some, Option.some.injEq]
+      refine ⟨Arr.logical_setLogical a hv k hk _, ?_⟩
+      intro a' ha'
+      rw [← ha']
+      exact Arr.valid_setLogical a hv k _
+
+/-- **a method whose stores are all layout-free**: the logical content after the method is a function of the logical content
+    before it — whatever the layout -/
+theorem applyWrites_logical (ws : List MaskWrite) (hws : ws.all layoutFree = true) (a : Arr) (hv : a.Valid) :
+    (applyWrites ws a).map Arr.logical = writesLogical ws a.logical := by
+  induction ws generalizing a with
+  | nil => simp [applyWrites, writesLogical]
+  | cons w ws ih =>
+    simp only [List.all_cons, Bool.and_eq_true] at hws
+    obtain ⟨h1, h2⟩ := applyWrite_logical w hws.1 a hv
+    simp only [applyWrites, writesLogical]
+    cases hw : applyWrite w a with
+    | none => rw [hw] at h1; simp at h1; rw [← h1]; rfl
+    | some a' =>
+      rw [hw] at h1
+      simp only [Option.map_some] at h1
+      rw [← h1]
+      exact ih hws.2 a' (h2 a' hw)
+end DadiVerif.Driver.Memo
